@@ -1008,6 +1008,18 @@ func (c14) Run(input any) kit.Case {
 	admittedImpl := v.panicked == "" && len(v.errs) == 0
 	obs := map[string]any{"errors": v.human}
 	if admittedImpl && in.Dflt {
+		// the same experiment through the two webhook handlers, as the API server calls them: on CREATE, and on an UPDATE
+		// that re-submits the original manifest over the stored (defaulted) object (kubectl replace -f, kubectl apply)
+		ok1, st1, n1 := admissionChain(in.World, in.Exp, nil)
+		if gv := chainViolation("CREATE", ok1, st1, n1); gv != "" {
+			c.GoViol = gv
+		} else if !ok1 {
+			c.GoViol = "CREATE through the webhook chain is refused although ValidateExperiment(SetDefault(exp)) reports no error"
+		}
+		ok2, st2, n2 := admissionChain(in.World, in.Exp, v.validated)
+		if gv := chainViolation("UPDATE with the original manifest", ok2, st2, n2); gv != "" && c.GoViol == "" {
+			c.GoViol = gv
+		}
 		r := rand.New(rand.NewSource(in.RunSeed))
 		e := v.validated
 		algo := ""
